@@ -35,6 +35,30 @@ theorem alias_lookup_local (pkg : String) (facts extra : List AliasFact) (name :
     · exact Or.inl h1
     · exact Or.inr ⟨f, List.mem_append_left _ hf, hs⟩
 
+theorem getAliasesFrom_append (pkg : String) : ∀ (a b : List AliasFact) (t : AliasTable),
+    getAliasesFrom pkg t (a ++ b) = getAliasesFrom pkg (getAliasesFrom pkg t a) b
+  | [], b, t => rfl
+  | f :: a, b, t => by
+    simp only [List.cons_append, getAliasesFrom]
+    cases aliasStep pkg f with
+    | skip => exact getAliasesFrom_append pkg a b t
+    | add n fn => exact getAliasesFrom_append pkg a b _
+
+theorem getAliasesFrom_skips (pkg : String) : ∀ (b : List AliasFact) (t : AliasTable),
+    (∀ f ∈ b, aliasStep pkg f = .skip) → getAliasesFrom pkg t b = t
+  | [], t, _ => rfl
+  | f :: b, t, h => by
+    simp only [getAliasesFrom, h f (by simp)]
+    exact getAliasesFrom_skips pkg b t (fun g hg => h g (by simp [hg]))
+
+/-- Expressions that are no alias candidates (of a module outside the package, of functions, of plain values …) leave the
+    table exactly as it is: adding a module all of whose looked-at expressions are skipped changes NOTHING of the table —
+    and therefore nothing of the analysis of any other module (`C08b.analysis_reads_alias_sets`). -/
+theorem alias_table_ignores_skipped (pkg : String) (facts extra : List AliasFact)
+    (h : ∀ f ∈ extra, aliasStep pkg f = .skip) : getAliases pkg (facts ++ extra) = getAliases pkg facts := by
+  unfold getAliases
+  rw [getAliasesFrom_append, getAliasesFrom_skips pkg extra _ h]
+
 /-- COUNTEREXAMPLE to full locality (why C18's analyser half is "partial"): the table is keyed by SHORT name, so an
     unrelated module that reuses a class name adds a second candidate for the first module's name. -/
 theorem same_short_name_interferes :
